@@ -234,7 +234,7 @@ func c15Unfold(x *engine.Exec, cd *Codec, doc, next []byte, entry, tk, full int,
 		}
 		feedWrite := func(w io.Writer, d []byte, cs [][2]int) error {
 			for _, ch := range cs {
-				scratch := append([]byte(nil), d[ch[0]:ch[1]]...)
+				scratch := exact(d[ch[0]:ch[1]])
 				_, err := w.Write(scratch)
 				for i := range scratch {
 					scratch[i] = 0xAA
